@@ -39,6 +39,22 @@ pub fn offer(w: &mut World, text: &TextRef, faults_: &[TokFault], reader: Bk, ar
         }
     }
     let changed = d.text != orig;
+    // the unvalidated KeyText layer under the key parsers (C04: no operation on a parsed value panics)
+    let ktkind = match artifact {
+        Artifact::KeyLocal => Some(crate::backend::Kind::Local),
+        Artifact::KeyPublic => Some(crate::backend::Kind::Public),
+        Artifact::KeySecret => Some(crate::backend::Kind::Secret),
+        Artifact::KeyPkePublic => Some(crate::backend::Kind::PkePublic),
+        Artifact::KeyPkeSecret => Some(crate::backend::Kind::PkeSecret),
+        _ => None,
+    };
+    if let Some(k) = ktkind {
+        match backend(reader).keytext_ops(k, &d.text) {
+            Out::Panic(p) => w.violate("C04", "panic", reader, &format!("keytext-{}", artifact.name()), "", format!("an operation on a parsed KeyText panicked for {:?}: {p}", truncate(&d.text, 80))),
+            Out::Err(crate::backend::ErrKind::Payload(m)) if m.contains("harness") => w.violate("C08", "keytext-raw-roundtrip", reader, &format!("keytext-{}", artifact.name()), "", m),
+            _ => {}
+        }
+    }
     let fclass = if applied.is_empty() { "none".to_string() } else { applied.join("+") };
     let be = backend(reader);
     let r = be.reparse(artifact, &d.text);
